@@ -35,6 +35,8 @@ DEFAULT_KNOBS = {
     "p_while": 0.2, "p_tuple_assign": 0.2, "p_annot": 0.15, "multi_call_sites": 0.0,
     "p_instance_global": 0.2, "p_nested_in_method": 0.3, "p_parent_relative": 0.5,
     "p_dunder_call": 0,     # callable instances; 0 = no random draw at all (opt-in per check)
+    "p_multi_global": 0,    # `global a, b` (two names in one statement), both rebound
+    "p_class_comp": 0,      # class body: list attribute + comprehension over it (first iterable = class scope)
     "p_kw_like_var": 0,     # calls of **kwargs functions pass a keyword spelled like a variable
     "unique_names": 0,      # 1 = every binding gets its own spelling (no clashes anywhere in the project);
                             # 2 = the same, except that class attributes may reuse the spelling of a module global
@@ -532,8 +534,17 @@ class Gen:
         if self.p("p_global_stmt") and mod.gvars and indent == 0 and self.k.get("allow_global_write", True):
             g = self.rnd.choice(mod.gvars)
             if g not in pnames and g not in pool:
-                body.append(f"{pad}    global {g}")
-                body.append(f"{pad}    {g} = {g} + {self.lit()}" if False else f"{pad}    {g} = {self.lit()}")
+                others = [h for h in mod.gvars if h != g and h not in pnames and h not in pool]
+                if self.k["p_multi_global"] and others and self.p("p_multi_global"):
+                    # one statement declares two names; both are rebound (the first from its old value)
+                    h = self.rnd.choice(others)
+                    body.append(f"{pad}    global {g}, {h}")
+                    body.append(f"{pad}    {g} = {g} + {self.lit()}")
+                    body.append(f"{pad}    {h} = {self.lit()}")
+                    ctx.ints.append(h)
+                else:
+                    body.append(f"{pad}    global {g}")
+                    body.append(f"{pad}    {g} = {self.lit()}")
                 ctx.ints.append(g)
         if inner_name:
             isig = Sig(inner_name, [(self.fresh(VNAMES, set()), "pos", None)])
@@ -575,6 +586,23 @@ class Gen:
             ci.cattrs.append(a)
             cctx = cctx.without([a])
             cctx.ints.append(a)
+        if self.k["p_class_comp"] and self.p("p_class_comp"):
+            # a list-valued class attribute and a comprehension over it directly in the class body: the first
+            # iterable of a comprehension is evaluated in the class namespace
+            reuse = [g for g in mod.glists if g not in taken]
+            if reuse and self.p("p_shadow") and self.k["unique_names"] != 1:
+                la = self.rnd.choice(reuse)
+            else:
+                la = self.fresh(["items", "seq", "data"], taken)
+            taken.add(la)
+            lines.append(f"    {la} = [{self.int_expr(cctx, 0)}, {self.lit()}, {self.lit()}]")
+            tot = self.fresh(["total", "size", "K"], taken)
+            taken.add(tot)
+            v = self.vname()
+            lines.append(f"    {tot} = sum({v} + 1 for {v} in {la})")
+            ci.cattrs.append(tot)
+            cctx = cctx.without([la, tot])
+            cctx.ints.append(tot)
         # __init__
         isig = self.gen_sig("__init__", taken_params=["self"], method=True)
         isig.params = [p for p in isig.params if p[1] in ("pos", "default")]
